@@ -225,7 +225,7 @@ class Session:
                     os.chdir(cwd)
             else:
                 uni.apply_user_ops([op])
-            self.count("user_op." + op[0])
+            self.count("fault.fs_event_" + op[0])
             if gap:
                 await asyncio.sleep(gap)
 
